@@ -290,7 +290,7 @@ func (r *checkRun) run() int {
 		}
 		r.reports = append(r.reports, rep)
 	}
-	sc := solveConfig{workDir: filepath.Join(verifDir, "work", id), quickT: 4, slowT: 20, workers: max(2, runtime.NumCPU()/3)}
+	sc := solveConfig{workDir: filepath.Join(verifDir, "work", fmt.Sprintf("%s-%d", id, os.Getpid())), quickT: 4, slowT: 20, workers: max(2, runtime.NumCPU()/2)}
 	if r.tier == "thorough" {
 		sc.quickT, sc.slowT, sc.allAgree = 20, 60, true
 	}
@@ -305,7 +305,11 @@ func (r *checkRun) run() int {
 		}
 	}
 	solveAll(solvable, sc)
-	return r.finish(w)
+	rc := r.finish(w)
+	if rc == 0 {
+		os.RemoveAll(sc.workDir) // query files are only kept for failed obligations
+	}
+	return rc
 }
 
 func (r *checkRun) fatalViolation(stage, msg string) int {
